@@ -237,6 +237,9 @@ class AtomRun:
         r = None
         try:
             r = fn(*pos, **kw)
+            # a wrapper that returns a result while leaving an exception pending would let it
+            # surface at some later, unrelated C call: make it surface here, as part of this call
+            env.lib.vt_ledger_has_errors()
         except BaseException as e:      # noqa: B902 -- every exception class is an observation
             exc = type(e).__name__
             emsg = str(e)[:200]
@@ -333,7 +336,7 @@ class AtomRun:
         outcomes = {}
         fails = []
         ncalls = 0
-        nknown = 0
+        nknown = {}
         idx = -1
         aconst = dict(a, ovs=[ov for ov in a["ovs"] if ov.get("const")])
         for tup in L.tuples_of(a, values):
@@ -351,11 +354,12 @@ class AtomRun:
                         progress("%d:%d %s %s %s" % (a["n"], idx, mode, form, ",".join(tup)))
                     lab, det = self.one(mode, tup, form, v)
                     ncalls += 1
-                    if det is not None and lab == "FAIL" and L.is_known_range(a, det):
-                        lab = "deviation:range-in-overloaded-set"
-                        det["known_shape"] = "range-in-overloaded-set"
-                        nknown += 1
-                        if nknown > 2:
+                    shape = L.known_shape(a, det) if (det is not None and lab == "FAIL") else None
+                    if shape:
+                        lab = "deviation:" + shape
+                        det["known_shape"] = shape
+                        nknown[shape] = nknown.get(shape, 0) + 1
+                        if nknown[shape] > 2:
                             det = None
                     outcomes[lab] = outcomes.get(lab, 0) + 1
                     if det is not None:
